@@ -229,6 +229,12 @@ def many_locals_family(quick):
 
 def many_args_family(quick):
     out = []
+    for n in (256, 257, 300, 512, 513):
+        ps = ", ".join("p%d" % i for i in range(n))
+        args = ", ".join(str(i + 1) for i in range(n))
+        good = [1, n, 5]
+        out.append(("args:over:%d" % n, "functie f(%s) { stel own = 5; [p0, p%d, own] } f(%s)" % (ps, n - 1, args), ("LIMIT-OK", good)))
+        out.append(("args:over-pending:%d" % n, "functie nul(%s) { 0 } 1000 + nul(%s)" % (ps, args), ("LIMIT-OK", 1000)))
     for n in ((2, 100, 254, 255) if quick else (1, 2, 16, 100, 127, 128, 129, 200, 253, 254, 255)):
         ps = ", ".join("p%d" % i for i in range(n))
         args = ", ".join(str(i * 3) for i in range(n))
@@ -424,7 +430,7 @@ def scale_ok(o, exp):
         if p.startswith("OUT "):
             outp = decode_cp(p[4:])
     # resource limits may answer with an error value (DESIGN 4.3 item 5) - never with another value
-    if head == "ERR Syntax" and isinstance(exp, tuple) and exp[0] == "LIMIT-OK":
+    if head in ("ERR Syntax", "ERR Argument") and isinstance(exp, tuple) and exp[0] == "LIMIT-OK":
         return True, None
     if isinstance(exp, tuple) and exp[0] == "LIMIT-OK":
         exp = exp[1]
@@ -765,6 +771,8 @@ def alias_overwrite_family(quick):
         out.append((tag + ":nested", "stel in = [%s]; stel uit = [in, in]; stel oud = in[0]; in[0] = %s; stel x = uit[1]; %s [oud, x[0]]" % (src, src2, call), [pv, pv2]))
         out.append((tag + ":variable", "stel a = %s; stel b = a; a = %s; %s [a, b]" % (src, src2, call), [pv2, pv]))
         out.append((tag + ":loop", "functie niets3() { 0 }; stel w = [%s, %s]; stel i = 0; zolang i < 9 { i += 1; stel tmp = w[0]; w[0] = w[1]; w[1] = tmp; niets3() }; [w[0], w[1]]" % (src, src2), [pv2, pv]))
+    out.append(("alias:self-insert", "stel s = \"abc\"; s[1] = s; stel t = \"maandag\"; stel u = t; t[-1] = u; stel v = \"abc\"; stel w = \"abc\"; v[1] = w; [s, t, u, v, s == v]", ["aabcc", "maandamaandag", "maandamaandag", "aabcc", True]))
+    out.append(("alias:self-insert-array", "stel a = [1, 2, 3]; stel b = a; a[1] = lengte(b); a[-1] = a[0]; [a, b]", [[1, 3, 1], [1, 3, 1]]))
     out.append(("alias:char", "stel s = \"banaan\"; stel c = s[1]; c[0] = \"X\"; stel q = s[3]; [s, c, s[1], q, lengte(q)]", ["banaan", "X", "a", "a", 1]))
     out.append(("alias:char2", "stel s = \"aaa\"; stel c = s[0]; stel d = s[0]; c[0] = \"oe\"; [c, d, s, s[-1]]", ["oe", "a", "aaa", "a"]))
     out.append(("alias:type-string", "stel t = type(1); stel u = type(2); t[0] = \"X\"; [t, u, type(3)]", ["Xnt", "int", "int"]))
@@ -869,6 +877,11 @@ def nested_names_family(quick):
                     body = "functie binnen(n) { x = x + n; x }"
                 out.append("%s functie buiten(%s) { %s %s; [binnen(1), binnen(2)] } stel r = buiten(%s); [r, %s]" % (g, par, decl, body, arg, call))
                 out.append("%s functie buiten(%s) { %s stel f = %s; f(3) }; [buiten(%s), %s]" % (g, par, decl, body.replace("functie binnen", "functie", 1), arg, call))
+                if ik in ("use", "own"):
+                    # the same body as a parameterless function invoked on the spot (its own context: no closure)
+                    inner = "%s + 1" % call if ik == "use" else "stel x = 7; x + 1"
+                    out.append("%s functie buiten(%s) { %s functie() { %s }() }; [buiten(%s), %s]" % (g, par, decl, inner, arg, call))
+                    out.append("%s functie buiten(%s) { %s stel r = functie() { %s }(); r + 1 }; [buiten(%s), %s]" % (g, par, decl, inner, arg, call))
     return out
 
 
@@ -998,6 +1011,10 @@ def collect_store_collect_family(quick):
         out.append((tag + ":global-from-function", "functie niets() { 0 }; stel rij = [0.5, 0.5]; functie vul() { rij[0] = %s; 7; 8 } niets(); vul(); %s niets(); vul(); niets(); [rij[0], rij[1]]" % (src, churn), [pv, 0.5]))
         out.append((tag + ":returned-literal", "functie kop(n) { als n > 0 { antwoord kop(n - 1) } \"----\" } stel a = kop(2); a[0] = \"+\"; stel b = kop(0); [a, b, kop(3)]", ["+---", "----", "----"]))
         out.append((tag + ":literal-to-builtin", "functie etiket() { stel s = string(\"abc\"); s } stel a = etiket(); a[0] = \"Xÿ\"; [a, etiket(), \"abc\", lengte(\"abc\")]", ["Xÿbc", "abc", "abc", 3]))
+        out.append((tag + ":literal-as-argument", "functie merk(s) { s[0] = \"X\"; s }; stel a = merk(\"abc\"); [a, merk(\"abc\"), \"abc\", \"abc\" == \"abc\", lengte(\"abc\")]", ["Xbc", "Xbc", "abc", True, 3]))
+        out.append((tag + ":literal-in-array", "stel l = [\"abc\", \"abc\"]; stel e = l[0]; e[0] = \"X\"; stel f = l[1]; [e, f, l[0], \"abc\"]", ["Xbc", "abc", "Xbc", "abc"]))
+        out.append((tag + ":literal-as-branch-value", "functie kies(c) { als c { \"abc\" } anders { \"lus\" } }; stel a = kies(ja); a[0] = \"X\"; stel b = kies(ja); stel i = 0; stel w = \"\"; zolang i < 2 { i += 1; w = als i > 0 { \"lus\" } anders { \"\" }; w[2] = \"x\" }; [a, b, w, kies(nee)]", ["Xbc", "abc", "lux", "lus"]))
+        out.append((tag + ":literal-returned-from-loop", "functie zoek() { stel i = 0; zolang i < 3 { i += 1; als i == 2 { antwoord \"abc\" } } \"niets\" }; stel a = zoek(); a[1] = \"Q\"; [a, zoek()]", ["aQc", "abc"]))
         out.append((tag + ":literal-in-loop", "functie streep(n) { stel s = \"....\"; s[n] = \"#\"; s }; [streep(0), streep(1), streep(2), \"....\"]", ["#...", ".#..", "..#.", "...."]))
     return out
 
@@ -1044,3 +1061,17 @@ def run_unspecified(ctx, log):
     obs = runcorr.run_corr(ctx, UNSPECIFIED_BUT_MODELLED, log, budget=20000, stages=("compile", "eval"), label="unspecified-but-modelled", shard_size=30)
     for s_ in UNSPECIFIED_BUT_MODELLED:
         ctx.seen(("unspecified", s_))
+
+
+def many_collections_family(quick):
+    """N function returns (= N collections) before the interesting store: counters inside the collector may not wrap"""
+    out = []
+    for n in ((254, 255, 256, 257, 300, 511, 512, 513) if quick else (1, 127, 128, 129, 254, 255, 256, 257, 258, 511, 512, 513, 1023, 1024, 1025, 65535, 65536, 65537, 70000)):
+        out.append(("collections:%d" % n, "functie niets() { 0 }; stel oud = [3.5, \"oud\"]; stel i = 0; zolang i < %d { i += 1; niets() } stel doos = [oud, 1.5 + 1.0]; oud = 0; niets(); stel vers = [9.25, \"vers\"]; niets(); stel in = doos[0]; [in[0], in[1], doos[1], vers[0]]" % n,
+                    [3.5, "oud", 2.5, 9.25]))
+        out.append(("collections:fn:%d" % n, "functie niets() { 0 }; functie werk(k) { stel oud = [3.5]; stel i = 0; zolang i < k { i += 1; niets() } stel doos = [oud, \"s\"]; oud = 0; niets(); stel vers = [9.25]; niets(); stel in = doos[0]; [in[0], doos[1], vers[0]] } werk(%d)" % n,
+                    [3.5, "s", 9.25]))
+    return out
+
+
+SCALE_PARTS.update({"collections": many_collections_family})
